@@ -12,8 +12,8 @@ EXIT_OK, EXIT_VIOLATION, EXIT_INCONCLUSIVE, EXIT_ENGINE = 0, 1, 2, 3
 
 
 class Obligation:
-  def __init__(self, name, fn, cases, desc='', width=80, split=24, max_decisions=4000, path_seconds=60,
-               conc_cap=300, witnesses=(), solver_timeout_ms=30000, mode='bv', max_paths=10**9):
+  def __init__(self, name, fn, cases, desc='', width=80, split=24, max_decisions=4000, path_seconds=240,
+               conc_cap=300, witnesses=(), solver_timeout_ms=150000, mode='bv', max_paths=10**9):
     self.name = name; self.fn = fn; self.cases = list(cases); self.desc = desc; self.width = width
     self.split = split; self.max_decisions = max_decisions; self.path_seconds = path_seconds
     self.conc_cap = conc_cap; self.witnesses = tuple(witnesses); self.solver_timeout_ms = solver_timeout_ms
